@@ -1,0 +1,230 @@
+//! Verification hook (only compiled with `--cfg cfb_verif`).
+//!
+//! A thin wrapper around `std::sync::RwLock` that reports every acquisition
+//! request and every release to an observer registered for the current thread.
+//! Threads without an observer see a plain `std::sync::RwLock`.  With the cfg
+//! off this module does not exist and the crate uses `std::sync` directly.
+
+#![allow(dead_code)]
+
+use std::cell::RefCell;
+use std::fmt;
+use std::ops::{Deref, DerefMut};
+use std::sync::{Arc, LockResult, PoisonError, TryLockError, TryLockResult};
+
+/// Kind of access requested from / released on the lock.
+#[derive(Clone, Copy, Debug, Eq, PartialEq)]
+pub enum LockKind {
+    /// Shared access.
+    Read,
+    /// Exclusive access.
+    Write,
+}
+
+/// Receives lock events of the thread it is registered on.
+pub trait LockObserver: Send + Sync {
+    /// Called before the calling thread requests the lock; may block until
+    /// the observer decides the request may proceed.
+    fn before_acquire(&self, lock_addr: usize, kind: LockKind);
+    /// Called after the calling thread obtained the lock.
+    fn after_acquire(&self, lock_addr: usize, kind: LockKind);
+    /// Called after the calling thread released a guard.
+    fn after_release(&self, lock_addr: usize, kind: LockKind);
+}
+
+thread_local! {
+    static OBSERVER: RefCell<Option<Arc<dyn LockObserver>>> =
+        const { RefCell::new(None) };
+}
+
+/// Registers (or clears) the observer for the calling thread.
+pub fn set_thread_observer(observer: Option<Arc<dyn LockObserver>>) {
+    OBSERVER.with(|cell| *cell.borrow_mut() = observer);
+}
+
+fn observer() -> Option<Arc<dyn LockObserver>> {
+    OBSERVER.try_with(|cell| cell.borrow().clone()).ok().flatten()
+}
+
+/// Instrumented reader-writer lock.
+pub struct RwLock<T> {
+    inner: std::sync::RwLock<T>,
+}
+
+/// Shared guard of the instrumented lock.
+pub struct RwLockReadGuard<'a, T> {
+    guard: Option<std::sync::RwLockReadGuard<'a, T>>,
+    addr: usize,
+}
+
+/// Exclusive guard of the instrumented lock.
+pub struct RwLockWriteGuard<'a, T> {
+    guard: Option<std::sync::RwLockWriteGuard<'a, T>>,
+    addr: usize,
+}
+
+impl<T> RwLock<T> {
+    /// Creates a new lock.
+    pub fn new(value: T) -> RwLock<T> {
+        RwLock { inner: std::sync::RwLock::new(value) }
+    }
+
+    fn addr(&self) -> usize {
+        &self.inner as *const _ as usize
+    }
+
+    /// Shared acquisition.
+    pub fn read(&self) -> LockResult<RwLockReadGuard<'_, T>> {
+        let addr = self.addr();
+        let obs = observer();
+        if let Some(obs) = obs.as_ref() {
+            obs.before_acquire(addr, LockKind::Read);
+        }
+        let result = self.inner.read();
+        if let Some(obs) = obs.as_ref() {
+            obs.after_acquire(addr, LockKind::Read);
+        }
+        match result {
+            Ok(guard) => Ok(RwLockReadGuard { guard: Some(guard), addr }),
+            Err(err) => Err(PoisonError::new(RwLockReadGuard {
+                guard: Some(err.into_inner()),
+                addr,
+            })),
+        }
+    }
+
+    /// Exclusive acquisition.
+    pub fn write(&self) -> LockResult<RwLockWriteGuard<'_, T>> {
+        let addr = self.addr();
+        let obs = observer();
+        if let Some(obs) = obs.as_ref() {
+            obs.before_acquire(addr, LockKind::Write);
+        }
+        let result = self.inner.write();
+        if let Some(obs) = obs.as_ref() {
+            obs.after_acquire(addr, LockKind::Write);
+        }
+        match result {
+            Ok(guard) => Ok(RwLockWriteGuard { guard: Some(guard), addr }),
+            Err(err) => Err(PoisonError::new(RwLockWriteGuard {
+                guard: Some(err.into_inner()),
+                addr,
+            })),
+        }
+    }
+
+    /// Non-blocking shared acquisition (not a scheduling point).
+    pub fn try_read(&self) -> TryLockResult<RwLockReadGuard<'_, T>> {
+        let addr = self.addr();
+        match self.inner.try_read() {
+            Ok(guard) => {
+                if let Some(obs) = observer() {
+                    obs.after_acquire(addr, LockKind::Read);
+                }
+                Ok(RwLockReadGuard { guard: Some(guard), addr })
+            }
+            Err(TryLockError::WouldBlock) => Err(TryLockError::WouldBlock),
+            Err(TryLockError::Poisoned(err)) => {
+                if let Some(obs) = observer() {
+                    obs.after_acquire(addr, LockKind::Read);
+                }
+                Err(TryLockError::Poisoned(PoisonError::new(
+                    RwLockReadGuard { guard: Some(err.into_inner()), addr },
+                )))
+            }
+        }
+    }
+
+    /// Non-blocking exclusive acquisition (not a scheduling point).
+    pub fn try_write(&self) -> TryLockResult<RwLockWriteGuard<'_, T>> {
+        let addr = self.addr();
+        match self.inner.try_write() {
+            Ok(guard) => {
+                if let Some(obs) = observer() {
+                    obs.after_acquire(addr, LockKind::Write);
+                }
+                Ok(RwLockWriteGuard { guard: Some(guard), addr })
+            }
+            Err(TryLockError::WouldBlock) => Err(TryLockError::WouldBlock),
+            Err(TryLockError::Poisoned(err)) => {
+                if let Some(obs) = observer() {
+                    obs.after_acquire(addr, LockKind::Write);
+                }
+                Err(TryLockError::Poisoned(PoisonError::new(
+                    RwLockWriteGuard { guard: Some(err.into_inner()), addr },
+                )))
+            }
+        }
+    }
+
+    /// Consumes the lock, returning the value.
+    pub fn into_inner(self) -> LockResult<T> {
+        self.inner.into_inner()
+    }
+
+    /// Mutable access without locking.
+    pub fn get_mut(&mut self) -> LockResult<&mut T> {
+        self.inner.get_mut()
+    }
+
+    /// Whether the lock is poisoned.
+    pub fn is_poisoned(&self) -> bool {
+        self.inner.is_poisoned()
+    }
+}
+
+impl<T: fmt::Debug> fmt::Debug for RwLock<T> {
+    fn fmt(&self, f: &mut fmt::Formatter<'_>) -> fmt::Result {
+        self.inner.fmt(f)
+    }
+}
+
+impl<T> Deref for RwLockReadGuard<'_, T> {
+    type Target = T;
+    fn deref(&self) -> &T {
+        self.guard.as_ref().unwrap()
+    }
+}
+
+impl<T> Drop for RwLockReadGuard<'_, T> {
+    fn drop(&mut self) {
+        drop(self.guard.take());
+        if let Some(obs) = observer() {
+            obs.after_release(self.addr, LockKind::Read);
+        }
+    }
+}
+
+impl<T: fmt::Debug> fmt::Debug for RwLockReadGuard<'_, T> {
+    fn fmt(&self, f: &mut fmt::Formatter<'_>) -> fmt::Result {
+        (**self).fmt(f)
+    }
+}
+
+impl<T> Deref for RwLockWriteGuard<'_, T> {
+    type Target = T;
+    fn deref(&self) -> &T {
+        self.guard.as_ref().unwrap()
+    }
+}
+
+impl<T> DerefMut for RwLockWriteGuard<'_, T> {
+    fn deref_mut(&mut self) -> &mut T {
+        self.guard.as_mut().unwrap()
+    }
+}
+
+impl<T> Drop for RwLockWriteGuard<'_, T> {
+    fn drop(&mut self) {
+        drop(self.guard.take());
+        if let Some(obs) = observer() {
+            obs.after_release(self.addr, LockKind::Write);
+        }
+    }
+}
+
+impl<T: fmt::Debug> fmt::Debug for RwLockWriteGuard<'_, T> {
+    fn fmt(&self, f: &mut fmt::Formatter<'_>) -> fmt::Result {
+        (**self).fmt(f)
+    }
+}
